@@ -2,7 +2,11 @@
 (***************************************************************************)
 (* C18: pacing of the serial bus, on time stamps (microseconds, monotonic  *)
 (* clock) taken at the port's write/read boundaries.                       *)
-(*   pm {m, t}, pw {t0, t1}, pr {ret, t0, t1}, pmret {res, t}, end         *)
+(*   pm {m, t, wlen}, pw {ret, t0, t1}, pf {ret}, pr {ret, t0, t1},        *)
+(*   pmret {res, t}, end                                                   *)
+(* wlen = length of the message's frame with CR LF; a data chunk counts as  *)
+(* written once that many bytes were accepted by the port (in one or in    *)
+(* several short writes), whether or not the call then reports an error.   *)
 (* Lower bounds are required on every paced exchange:                      *)
 (*   the first write of the message after a data chunk starts >= 30 ms     *)
 (*   after the chunk's last write ended; the call returns >= 100 ms after  *)
@@ -15,11 +19,11 @@ EXTENDS Message, TraceBase, FiniteSets
 SendGap == 30000
 RecvGap == 100000
 
-VARIABLES l, cur, prevKind, lastW, lastR, first, gotReply, minSend, minRecv
-vars == <<l, cur, prevKind, lastW, lastR, first, gotReply, minSend, minRecv>>
+VARIABLES l, cur, prevKind, lastW, lastR, first, gotReply, minSend, minRecv, wlen, sent, clean
+vars == <<l, cur, prevKind, lastW, lastR, first, gotReply, minSend, minRecv, wlen, sent, clean>>
 
 Init == l = 1 /\ cur = NoReply /\ prevKind = "" /\ lastW = 0 /\ lastR = 0 /\ first = TRUE /\ gotReply = FALSE
-        /\ minSend = <<>> /\ minRecv = <<>>
+        /\ minSend = <<>> /\ minRecv = <<>> /\ wlen = 0 /\ sent = 0 /\ clean = TRUE
 
 E == Rec[l]
 IsEvent(name) == l <= NRec /\ E.e = name /\ l' = l + 1
@@ -27,37 +31,44 @@ IsEvent(name) == l <= NRec /\ E.e = name /\ l' = l + 1
 Upd(f, k, v) == [x \in DOMAIN f \cup {k} |-> IF x = k THEN (IF k \in DOMAIN f /\ f[k] < v THEN f[k] ELSE v) ELSE f[x]]
 
 PMEv == /\ IsEvent("pm")
-        /\ cur' = E.m /\ first' = TRUE /\ gotReply' = FALSE
+        /\ cur' = E.m /\ first' = TRUE /\ gotReply' = FALSE /\ wlen' = E.wlen /\ sent' = 0 /\ clean' = TRUE
         /\ UNCHANGED <<prevKind, lastW, lastR, minSend, minRecv>>
 
 PW == /\ IsEvent("pw")
       /\ (first /\ prevKind = "SendData" => E.t0 - lastW >= SendGap)        \* the next message waits 30 ms after a data chunk
-      /\ lastW' = E.t1 /\ first' = FALSE
-      /\ UNCHANGED <<cur, prevKind, lastR, gotReply, minSend, minRecv>>
+      /\ first' = FALSE
+      /\ IF E.ret > 0 THEN lastW' = E.t1 /\ sent' = sent + E.ret /\ UNCHANGED clean
+         ELSE clean' = FALSE /\ UNCHANGED <<lastW, sent>>
+      /\ UNCHANGED <<cur, prevKind, lastR, gotReply, minSend, minRecv, wlen>>
+
+PF == /\ IsEvent("pf")
+      /\ clean' = (clean /\ E.ret >= 0)
+      /\ UNCHANGED <<cur, prevKind, lastW, lastR, first, gotReply, minSend, minRecv, wlen, sent>>
 
 PR == /\ IsEvent("pr")
       \* time between the end of the last write and the first read: where a send delay would sit
-      /\ minSend' = IF ~gotReply /\ cur.k # "SendData" THEN Upd(minSend, cur.k, E.t0 - lastW) ELSE minSend
-      /\ lastR' = E.t1 /\ gotReply' = TRUE
-      /\ UNCHANGED <<cur, prevKind, lastW, first, minRecv>>
+      /\ minSend' = IF ~gotReply /\ clean /\ cur.k # "SendData" THEN Upd(minSend, cur.k, E.t0 - lastW) ELSE minSend
+      /\ lastR' = E.t1 /\ gotReply' = (E.ret > 0 \/ gotReply) /\ clean' = (clean /\ E.ret > 0)
+      /\ UNCHANGED <<cur, prevKind, lastW, first, minRecv, wlen, sent>>
 
 InProgress(r) == r.k = "ReportState" /\ r.s \in {"PageLoadInProgress", "PageShowInProgress"}
 
 PMRet ==
     /\ IsEvent("pmret")
     /\ (gotReply /\ InProgress(E.res) => E.t - lastR >= RecvGap)            \* 100 ms after an in-progress report
-    /\ minRecv' = IF gotReply /\ ~InProgress(E.res) /\ E.res.k \notin {"Err", "Panic"}
+    /\ minRecv' = IF gotReply /\ clean /\ ~InProgress(E.res) /\ E.res.k \notin {"Err", "Panic"}
                   THEN Upd(minRecv, <<E.res.k, E.res.s>>, E.t - lastR) ELSE minRecv
-    /\ minSend' = IF ~gotReply /\ cur.k # "SendData" THEN Upd(minSend, cur.k, E.t - lastW) ELSE minSend
-    /\ prevKind' = cur.k
-    /\ UNCHANGED <<cur, lastW, lastR, first, gotReply>>
+    /\ minSend' = IF ~gotReply /\ clean /\ cur.k # "SendData" THEN Upd(minSend, cur.k, E.t - lastW) ELSE minSend
+    \* a data chunk counts once its whole frame went out; a chunk that was only partly written is followed by no pause
+    /\ prevKind' = IF cur.k = "SendData" /\ sent < wlen THEN "partial" ELSE cur.k
+    /\ UNCHANGED <<cur, lastW, lastR, first, gotReply, wlen, sent, clean>>
 
 EndEv == /\ IsEvent("end")
          /\ \A k \in DOMAIN minSend : minSend[k] < SendGap                  \* no other message is delayed by 30 ms
          /\ \A k \in DOMAIN minRecv : minRecv[k] < RecvGap                  \* no other reply is delayed by 100 ms
          /\ Cardinality(DOMAIN minSend) >= 9 /\ Cardinality(DOMAIN minRecv) >= 15   \* all kinds were exercised
-         /\ UNCHANGED <<cur, prevKind, lastW, lastR, first, gotReply, minSend, minRecv>>
+         /\ UNCHANGED <<cur, prevKind, lastW, lastR, first, gotReply, minSend, minRecv, wlen, sent, clean>>
 
-Next == PMEv \/ PW \/ PR \/ PMRet \/ EndEv
+Next == PMEv \/ PW \/ PF \/ PR \/ PMRet \/ EndEv
 Spec == Init /\ [][Next]_vars
 =============================================================================
